@@ -10,7 +10,8 @@ Inductive operand :=
 | OJoin (a b : operand).
 Inductive cond :=
 | CSame (i : nat) (f : field) (j : nat) (g : field)     (* in[n+i].f == in[n+j].g *)
-| CConst (i : nat) (f : field) (c : Z).                 (* in[n+i].f == c *)
+| CConst (i : nat) (f : field) (c : Z)                  (* in[n+i].f == c *)
+| CNotConst (i : nat) (f : field) (c : Z).              (* in[n+i].f != c *)
 Record rule := mkRule {
   r_codes : list string;     (* opcode constant names of the window, in order *)
   r_conds : list cond;
